@@ -315,6 +315,9 @@ func c02FiltersUnavoidable(r *Run, fn *ssa.Function, leaf string, vi []ssa.Instr
 		{Pat: "p1.acceptOnlyCA"}, {Pat: "*[0].IsCA"}, {Pat: "p1.rejectExpired"}, {Pat: "p1.rejectUnexpired"}, {OrdA: "*p1.currentTime*", OrdB: "*[0].NotAfter"}},
 		vi, "the CA-only / expired / unexpired filters")
 	r.GateUnavoidable(fn, "ValidateChain:unavoidable[required-EKU]", ekuAtoms, vi, "the required-EKU filter")
+	if rejProbe == "" {
+		return // the forbidden-extension filter has the nested-scan form: c02ForbiddenExtScan has established the same facts on it
+	}
 	r.ScanUnavoidable(fn, "ValidateChain:forbidden-extension-scan", ScanSpec{
 		Probe: boolAtom(rejProbe), Miss: "F", List: leaf + ".Extensions",
 		On: func(e string) string {
